@@ -53,6 +53,7 @@ REQUIRED = [
     "tls1.2",
     "tls1.3",
     "bytes_checked",
+    "highlevel_server_sessions",
 ]
 WATCHDOG = {"quick": 900, "thorough": 7200}
 SIZES = [1, 2, 100, 1000, 16384, 16385, 50000]
@@ -323,6 +324,101 @@ def sync_session(ctx, rng: random.Random, version: str, lib_server: bool, p: dic
     return None
 
 
+def highlevel_server_session(ctx, rng: random.Random, version: str, std: bool) -> str | None:
+    """the TLS byte stream as the user of the high-level server sees it: a handler writes a large response and ends without closing
+    the client itself (returns before its first yield, or raises), the server tears the connection down; a peer with a tiny receive
+    window that starts reading late must still read exactly the bytes written, then the end of the stream"""
+    import asyncio
+    import socket as _socket
+
+    from easynetwork.protocol import StreamProtocol
+    from easynetwork.serializers import StringLineSerializer
+    from easynetwork.servers.async_tcp import AsyncTCPNetworkServer
+    from easynetwork.servers.handlers import AsyncStreamRequestHandler
+
+    size = rng.choice([50_000, 300_000])
+    payload = ("%06d" % size + "y" * size)
+    how = rng.choice(["return-before-yield", "raise-after-send", "yield-then-peer-closes"])
+    out: dict = {}
+
+    class H(AsyncStreamRequestHandler):
+        async def handle(self, client):
+            await client.send_packet(payload)
+            if how == "raise-after-send":
+                raise RuntimeError("handler failure after the response was sent")
+            if how == "yield-then-peer-closes":
+                yield
+            return
+
+    class _Up:
+        def __init__(self):
+            self.ev = asyncio.Event()
+
+        def set(self):
+            self.ev.set()
+
+    async def main(loop):
+        import logging
+
+        lg = logging.getLogger("verif.c08")
+        lg.propagate = False
+        lg.handlers[:] = [logging.NullHandler()]
+        backend = AsyncIOBackend()
+        server = AsyncTCPNetworkServer(netutil.rand_loopback(), 0, StreamProtocol(StringLineSerializer(limit=1_000_000)), H(), backend, ssl=tlspeer.server_context(version), ssl_handshake_timeout=10, ssl_shutdown_timeout=5, ssl_standard_compatible=std, logger=lg)
+        up = _Up()
+        st = asyncio.ensure_future(server.serve_forever(is_up_event=up))
+        await asyncio.wait_for(up.ev.wait(), 30)
+        a = server.get_addresses()[0]
+        s = _socket.socket()
+        s.setsockopt(_socket.SOL_SOCKET, _socket.SO_RCVBUF, 4096)
+        s.bind((netutil.rand_loopback(), 0))
+        s.setblocking(False)
+        await asyncio.get_running_loop().sock_connect(s, (a.host, a.port))
+
+        class _SockT:
+            async def send_all(self_inner, data):
+                await asyncio.get_running_loop().sock_sendall(s, data)
+
+            async def recv_into(self_inner, buf):
+                try:
+                    return await asyncio.get_running_loop().sock_recv_into(s, buf)
+                except ConnectionResetError:
+                    out["reset"] = True
+                    return 0
+                except OSError:
+                    return 0
+
+        peer = tlspeer.AsyncPeer(_SockT(), tlspeer.client_context(version), server_side=False)
+        await peer.handshake()
+        await asyncio.sleep(1.0)  # the peer is busy elsewhere: the whole response sits in the server's send path
+        nwant = len(payload) + 1
+        loop.io_expected = lambda: not out.get("done") and len(peer.plaintext_in) < nwant  # a reader is draining the socket
+        try:
+            out["end"] = await asyncio.wait_for(peer.read_until_end(), 120)
+        except (ssl.SSLError, OSError, asyncio.TimeoutError) as exc:
+            out["end"] = f"error:{type(exc).__name__}"
+        out["done"] = True
+        loop.io_expected = None
+        out["plaintext"] = bytes(peer.plaintext_in)
+        s.close()
+        await server.shutdown()
+        await server.server_close()
+        await asyncio.gather(st, return_exceptions=True)
+
+    try:
+        vloop.run(main)
+    except vloop.Quiescent as exc:
+        return f"deadlock: {exc}"
+    except Exception as exc:  # noqa: BLE001
+        return f"unexpected {type(exc).__name__}: {exc}"
+    want = payload.encode() + b"\n"
+    got = out.get("plaintext", b"")
+    ctx.count("highlevel_server_sessions")
+    if got != want:
+        return f"high-level TLS server (standard_compatible={std}, handler '{how}'): the peer read {len(got)} of the {len(want)} bytes the handler had sent before the server closed the connection" + (" (connection reset)" if out.get("reset") else "")
+    return None
+
+
 def gen_params(rng: random.Random, heavy: bool) -> dict:
     def sizes():
         n = rng.randint(1, 4)
@@ -404,6 +500,12 @@ def run_shard(params: dict, ctx) -> None:
         if why:
             cat = "deadlock" if "deadlock" in why or "hang" in why else "plaintext-leak" if "unencrypted" in why else "byte-stream"
             ctx.violation(f"{cat}:{kind}", f"[{kind} TLS{version} lib_server={lib_server}] {why}", {"kind": kind, "version": version, "lib_server": lib_server, "params": p, "seed": params["seed"], "index": i})
+        if i % 10 == 0:
+            std = rng.random() < 0.5
+            why2 = highlevel_server_session(ctx, rng, version, std)
+            ctx.case(True, "highlevel-server", version, std, params["seed"], i)
+            if why2:
+                ctx.violation("byte-stream:highlevel-server", f"[AsyncTCPNetworkServer TLS{version}] {why2}", {"kind": "highlevel-server", "version": version, "lib_server": True, "params": {}, "seed": params["seed"], "index": i})
         if i == 0:
             ctx.sample({"kind": kind, "tls": version, "library_is_server": lib_server, **p})
 
